@@ -281,7 +281,8 @@ func vcRunC06(t *vcTrial, cfg vc06Cfg) {
 		}
 		c := vcInner(rec.Conn)
 		stuck := atomic.LoadInt32(&inHandler) == 0 && c.isUnlock(processing) && c.IsActive() &&
-			c.inputBuffer.Len() > 0 && atomic.LoadUint64(&consumed)+uint64(c.inputBuffer.Len()) == total()
+			c.inputBuffer.Len() > 0 && atomic.LoadUint64(&consumed)+uint64(c.inputBuffer.Len()) == total() &&
+			vcPollerDoneWithInput(mark, c) // the poller is not still on its way to start the handler
 		if cfg.Handler == "block" && !cfg.PeerClose && atomic.LoadInt32(&inHandler) == 1 {
 			// the handler legitimately waits for one more frame: provide it
 			writeN(vc06Frame, false)
@@ -296,8 +297,8 @@ func vcRunC06(t *vcTrial, cfg vc06Cfg) {
 				t.Inconclusive("runner canary made no progress")
 				return
 			}
-			time.Sleep(20 * time.Millisecond)
-			if atomic.LoadInt32(&invocations) == inv0 && c.inputBuffer.Len() == len0 && c.isUnlock(processing) && c.IsActive() && atomic.LoadInt32(&inHandler) == 0 {
+			time.Sleep(100 * time.Millisecond)
+			if atomic.LoadInt32(&invocations) == inv0 && c.inputBuffer.Len() == len0 && c.isUnlock(processing) && c.IsActive() && atomic.LoadInt32(&inHandler) == 0 && vcPollerDoneWithInput(mark, c) {
 				t.Violate("C06", "stranded_input", "%d unread bytes are buffered (sender wrote %d, handler consumed %d), the connection is active, no OnRequest invocation is in progress, the processing lock is free, and 5 runner tasks completed meanwhile: the input is stranded until another network event", len0, total(), atomic.LoadUint64(&consumed))
 				break
 			}
@@ -476,7 +477,7 @@ func vcRunC06Client(t *vcTrial, racing bool) {
 			t.Violate("C06", "stranded_input", "SetOnRequest on a client connection whose peer had sent %d bytes and closed before the handler was installed: the handler was never invoked (consumed %d, %d still buffered), runner canary tasks completed meanwhile", n, got, c.inputBuffer.Len())
 		}
 		if !t.Violated() && c.isUnlock(processing) && c.inputBuffer.Len() > 0 && got+uint64(c.inputBuffer.Len()) == uint64(n) && vcRunnerProgress(5, 5*time.Second) {
-			time.Sleep(20 * time.Millisecond)
+			time.Sleep(100 * time.Millisecond)
 			if c.isUnlock(processing) && atomic.LoadUint64(&consumed) == got {
 				t.Violate("C06", "stranded_input", "SetOnRequest on a client connection with %d bytes buffered (racing=%v): handler consumed %d, %d bytes stay buffered, no invocation in progress, lock free", n, racing, got, c.inputBuffer.Len())
 			}
